@@ -573,6 +573,7 @@ func (s *Snapshot) Open() bool {
 		if refCount == 0 {
 			return false
 		}
+		verifYield("open.after-load")
 		if atomic.CompareAndSwapInt32(&s.refCount, refCount, refCount+1) {
 			return true
 		}
